@@ -385,6 +385,15 @@ func (g *gen) genListeners() {
 	addQ(h, []byte("x"))
 	addQ(qbase(), r.Bytes(1200))
 	addQ(qbase(), nil)
+	// the UDP length field: 0 ("rest of the packet"), below the header size, smaller and larger than the datagram
+	for _, pl := range []int{0, 20, 1200} {
+		for _, ul := range []uint16{0, 1, 2, 7, 8, 9, 19, uint16(pl + 7), uint16(pl + 9), 2000, 9300, 65535} {
+			if b, err := buildSCION(qbase(), r.Bytes(pl)); err == nil && len(b) >= pl+8 {
+				binary.BigEndian.PutUint16(b[len(b)-pl-4:], ul)
+				qd = append(qd, b)
+			}
+		}
+	}
 	qd = append(qd, r.Bytes(40), nil)
 	for _, d := range qd {
 		g.add("srv.quic", "nt,one", bl(d))
